@@ -249,35 +249,93 @@ def protoRow (closing cs : Bool) : Facts.C15.Row :=
 /-- the decision tables of the real `pause_writing` / `resume_writing` / `connection_lost`
 (both transports, run on a stub each check) are the model's - `closing` rows included: on a
 closing transport `pause_writing` does nothing and `resume_writing` still sets the event and
-resumes reading; `write()` re-checks `_can_send` in a loop; `max_send_delay` is positive -/
+resumes reading; `max_send_delay` is positive -/
 theorem facts_protocol_tables :
     Facts.C15.tableRS = [protoRow false false, protoRow false true, protoRow true false, protoRow true true] ∧
     Facts.C15.tableUS = Facts.C15.tableRS ∧
-    Facts.C15.writeLoopsRS = true ∧ Facts.C15.writeLoopsUS = true ∧
     0 < Facts.C15.maxSendDelayMs :=
-  ⟨by decide, by decide, by decide, by decide, by decide⟩
+  ⟨by decide, by decide, by decide⟩
 
-/-- **One message = one `transport.write`**: in both transports `write()` calls `frame(..)`
-exactly once and hands the result to the asyncio transport in exactly one call, outside any loop,
-with every suspension point of the function before that call (AST facts regenerated from the
-source each run) - the justification for modelling a message as an atomic id. -/
+/-! ### The write path, step by step
+
+The real `write()` coroutine of both transports is driven with `coro.send(None)` on recording
+stubs (tools/facts/c15.py `write_traces`) through six scenarios.  The model replays each scenario
+as events; a writer's step is read off the step's observations: `wrote m` = `frame` + one
+`transport.write` of exactly the framed bytes, a `pauseReading` *after* a write in the same step =
+the transport re-paused from inside that write, `sendOk` = the coroutine finished. -/
+
+open Facts.C15 (WCall) in
+/-- the calls of the writer(s) in one model step (what the environment itself does before any
+writer runs - `pause_reading` of a `pause`, `resume_reading` - is not a writer's call) -/
+def wcalls : Bool → List Obs → List WCall
+  | _, [] => []
+  | _, Obs.wrote _ _ :: os => WCall.frame :: WCall.writeFramed :: wcalls true os
+  | true, Obs.pauseReading :: os => WCall.pauseReading :: wcalls true os
+  | w, _ :: os => wcalls w os
+
+def isSendOk : Obs → Bool
+  | .sendOk _ _ _ => true
+  | _ => false
+
+/-- replay: events flagged `true` are steps of the (single) writer -/
+def modelTrace (t : T) : List (Event × Bool) → List (List Facts.C15.WCall × Bool)
+  | [] => []
+  | (e, w) :: es =>
+    if w then (wcalls false (step t e).2, (step t e).2.any isSendOk) :: modelTrace (step t e).1 es
+    else modelTrace (step t e).1 es
+
+/-- the six scenarios of `tools/facts/c15.py` as model events -/
+def writeScenarios : List (List (Event × Bool)) := [
+  -- room
+  [(.send 1 1 [], true)],
+  -- wait_then_room
+  [(.pause, false), (.send 1 1 [], true), (.resume [], true)],
+  -- repaused_before_the_woken_writer_runs: resume and pause back to back, then the writer runs
+  [(.pause, false), (.send 1 1 [], true), (.batch [.resume, .pause] [], true), (.resume [], true)],
+  -- closing
+  [(.lost, false), (.send 1 1 [], true)],
+  -- lost_while_waiting
+  [(.pause, false), (.send 1 1 [], true), (.lost, true)],
+  -- transport_pauses_inside_the_write
+  [(.send 1 1 [true], true)]]
+
+/-- **The write path of the source is the model's**, step by step and on both transports: one
+`frame` and one `transport.write` of exactly the framed bytes per message, in the same step (no
+suspension point between them - the justification for modelling a message as an atomic id); a
+writer that is woken re-checks and waits again if the transport has re-paused in the meantime;
+nothing is framed or written on a closing transport; a writer released by the loss returns
+without writing. -/
 theorem facts_write_atomic :
-    Facts.C15.frameOnceRS = true ∧ Facts.C15.writeAtomicRS = true ∧
-    Facts.C15.frameOnceUS = true ∧ Facts.C15.writeAtomicUS = true :=
-  ⟨by decide, by decide, by decide, by decide⟩
+    Facts.C15.writeTraceRS = writeScenarios.map (modelTrace (init 20)) ∧
+    Facts.C15.writeTraceUS = Facts.C15.writeTraceRS :=
+  ⟨by decide, by decide⟩
 
-/-- **Every sender takes the modelled path**: session.py calls `transport.write` only inside
-`_send_message` (responses, requests, notifications, batches all go through it and its
-`max_send_delay` wrapper), and the transports call the asyncio transport's `write` only inside
-their own `write` (call-site facts regenerated from the source each run). -/
-theorem facts_single_write_path : Facts.C15.singleWritePath = true := by decide
+/-- **Every kind of sender is subject to `max_send_delay`**: a notification, a request, the
+response to an incoming request and a batch, each blocked on a full send buffer, get the
+connection aborted at exactly the delay (real session + transport protocol on the fake asyncio
+transport, both transports, run each check). -/
+theorem facts_single_write_path : Facts.C15.sendersBounded = [true, true, true, true] := by decide
 
-/-- **The stall abort is unconditional**: `_send_message` awaits the write under
-`timeout_after(self.max_send_delay)`; its `except TaskTimeout:` awaits `self.abort()` under no
-condition and re-raises; `transport.abort()` calls `abort()` on the asyncio transport also when it
-is already closing - what `T.fire` does in every state. -/
+def isAbort : Obs → Bool
+  | .abort _ => true
+  | _ => false
+
+/-- what the model says about a sender blocked since time 0 in the state reached by `pre` -/
+def stallRow (pre : List Event) : Facts.C15.StallRow :=
+  let t := (run (init 20) pre).1
+  let r := step t (.advance 25)
+  ⟨!t.blocked.isEmpty, t.closing, t.lost, (r.2.filter isAbort).length == 1,
+   r.2.contains (Obs.abort 20), r.2.contains (Obs.sendTimeout 2 2 20), r.1.lost⟩
+
+/-- **The stall abort, run**: the real `_send_message` blocked on a full buffer is released by
+exactly one `abort()` of the asyncio transport at exactly `max_send_delay`, ends with
+`TaskTimeout`, and the loss is delivered - with the connection up, and equally with a graceful
+close pending on unsent data (`is_closing()` true, `connection_lost` outstanding): the rows are
+the model's (`T.fire`).  `transport.abort()` reaches the asyncio transport also when closing. -/
 theorem facts_stall_abort :
-    Facts.C15.sendWrapsWrite = true ∧ Facts.C15.sendAbortsUnconditionally = true ∧
+    Facts.C15.stallRS = [stallRow [.pause, .send 2 2 []],
+                         stallRow [.send 1 1 [true], .send 2 2 [], .gclose true]] ∧
+    Facts.C15.stallUS = Facts.C15.stallRS ∧
     Facts.C15.abortAborts = true :=
   ⟨by decide, by decide, by decide⟩
 
